@@ -1,5 +1,7 @@
 import UgoVerif.Proofs.EncBytecode
 import UgoVerif.Proofs.EncNorm
+import UgoVerif.Proofs.EncCompile
+import UgoVerif.Spec.EncPos
 /-
   C04 — encoding bytecode and decoding it again preserves behaviour.
 
@@ -213,6 +215,181 @@ theorem C04_partial {Outcome Inputs : Type} (C : Ctx) (conv : BC → Res BC) (mo
   · intro fuel hf
     rw [rt_bytecode C conv mods bc' fuel hf hE', hfx']
 
+/-! ### the behavioural half over the VM model
+
+  `run F H bc i` (`Spec/EncVM.lean`) is `VM.runFrom` — the VM model's `Run`, tied to vm.go by the
+  lock-step `vmtrace` stream — on the state `load H bc` of a new VM for `bc`.  On well-formed
+  bytecode `load` builds exactly the denoted objects (`load_is_plain`), and on the output of the
+  compile model it is the state `Model/Eval.setBytecode` builds (`load_compiled`, the loader C10
+  is stated over). -/
+
+section vm
+open UgoVerif.Spec.EncVM UgoVerif.Spec.EncPos UgoVerif.VM
+
+/-- `norm_run`: a bytecode and its normal form run to the same outcome, for all inputs (the two
+    new VMs are in *equal* states) -/
+theorem norm_run (F : FloatOps) (H : Host) (bc : BC) (i : Inputs) : run F H (normBC bc) i = run F H bc i :=
+  run_norm F H bc i
+
+/-- `load` is the plain construction of the denoted Go objects on well-formed bytecode -/
+theorem load_is_plain (H : Host) (bc : BC) (h : WFBC bc) : load H bc = loadRaw H bc := load_of_WF H bc h
+
+/-- more than that: `load = loadRaw` as soon as the maps among the constants are Go maps (unique
+    keys) — compiled functions may have negative counts, a non-empty `Free`, repeated source-map
+    keys: none of that is part of the VM state, so `norm_run` is not an artefact of loading through
+    the normal form -/
+theorem load_is_plain_keys (H : Host) (hH : HostNorm H) (bc : BC)
+    (h : ∀ cs, bc.constants = some cs → KeysOKL cs) : load H bc = loadRaw H bc :=
+  loadRaw_norm H hH bc h
+
+/-- … and on compiler output it is `NewVM(bc)` of the Eval model -/
+theorem load_compiled (H : Host) (fs : Option FileSet) (cbc : Compile.Bytecode) (hs : SmallCounts cbc) :
+    load H (toEnc fs cbc) = Eval.setBytecode (newState #[] #[] #[] 0 0) cbc.main 0 cbc.constants #[] :=
+  load_toEnc H fs cbc hs
+
+/-- `C04_roundtrip_run`: encoding a bytecode and decoding it with the same builtin modules gives
+    a bytecode that runs to the same outcome for all globals and arguments.  Hypotheses: the
+    bytecode has an encoding (`EncodableBC`), and `fixObjects` succeeds constant by constant
+    without changing normal forms (`FixOK`: true for every constant that is not a module map —
+    `FixOK_notModule` — and for the map of an imported builtin module when the same module is
+    supplied — `FixOK_module`, from `fix_rebinds`).  Function constants carry no free
+    variables (the loader gives them `Free = nil`; the encoder does not write `Free`). -/
+theorem C04_roundtrip_run (F : FloatOps) (H : Host) (C : Ctx) (conv : BC → Res BC) (mods : Mods) (bc : BC)
+    (hE : EncodableBC C bc) (hfix : ∀ cs, bc.constants = some cs → ∀ c ∈ cs, FixOK mods c) :
+    ∃ bc', (decodeBytecode C conv mods (encodeBytecode C bc)).res = .ok bc' ∧
+      ∀ i, run F H bc' i = run F H bc i := by
+  obtain ⟨bc', hfx, hn⟩ := fixObjects_of_FixOK mods bc hfix
+  exact ⟨bc', by rw [bytecode_roundtrip_default_fuel C conv mods bc hE, hfx],
+    fun i => run_congr_norm F H bc bc' hn i⟩
+
+/-- `C04_full` with `run` := the VM model: holds for every class of bytecodes that are encodable
+    and whose constants `fixObjects` re-binds (`FixOK`), provided the re-bound bytecode is
+    encodable again (second round trip). -/
+theorem C04_vm (F : FloatOps) (H : Host) (C : Ctx) (conv : BC → Res BC) (mods : Mods) (compiled : BC → Prop)
+    (hE : ∀ bc, compiled bc → EncodableBC C bc)
+    (hfix : ∀ bc, compiled bc → ∀ cs, bc.constants = some cs → ∀ c ∈ cs, FixOK mods c)
+    (hE' : ∀ bc bc', compiled bc → fixObjects mods (normBC bc) = .ok bc' → EncodableBC C bc') :
+    C04_full C conv mods compiled (run F H) := by
+  intro bc hc
+  obtain ⟨bc', hfx, hn⟩ := fixObjects_of_FixOK mods bc (hfix bc hc)
+  refine ⟨bc', ?_, fun i => run_congr_norm F H bc bc' hn i, bc', ?_, fun i => run_congr_norm F H bc bc' hn i⟩
+  · intro fuel hf
+    rw [rt_bytecode C conv mods bc fuel hf (hE bc hc), hfx]
+  · intro fuel hf
+    rw [rt_bytecode C conv mods bc' fuel hf (hE' bc bc' hc hfx), hn, hfx]
+
+/-- the compile-model lemma: constants produced by the compile model never carry free variables
+    (`Compile.CFn` has no `Free` at all; closures are built at run time by OpClosure) -/
+theorem compiled_constants_no_free (cbc : Compile.Bytecode) :
+    (cfOfCFn cbc.main).numFree = 0 ∧
+    ∀ c ∈ cbc.constants.toList, ∀ f, objOfConst c = .compiledFunction f → f.numFree = 0 :=
+  constants_no_free cbc
+
+/-- bytecodes returned by the compile model (optimizer off, no imports), with the parser's file
+    set `fs`; side conditions: every length and count fits Go's `int` -/
+def CompilerOutput (C : Ctx) (builtins : List (String × Nat)) (disabled : List String) (fs : Option FileSet)
+    (bc : BC) : Prop :=
+  ∃ file cbc, Compile.compileFile builtins disabled file = .ok cbc ∧ bc = toEnc fs cbc ∧
+    SmallCounts cbc ∧ (encodeBytecodeBody C bc).length < 2 ^ 63
+
+/-- compiler output is well-formed, so the round trip returns *exactly* the bytecode that was
+    encoded: instructions, constants, source maps, file set, counts — nothing is normalised away
+    (`Free` is nil to begin with) -/
+theorem compiled_roundtrip_exact (C : Ctx) (conv : BC → Res BC) (mods : Mods) (fs : Option FileSet)
+    (cbc : Compile.Bytecode) (hs : SmallCounts cbc)
+    (hsmall : (encodeBytecodeBody C (toEnc fs cbc)).length < 2 ^ 63) :
+    (decodeBytecode C conv mods (encodeBytecode C (toEnc fs cbc))).res = .ok (toEnc fs cbc) := by
+  have hE : EncodableBC C (toEnc fs cbc) := by
+    refine ⟨?_, hsmall⟩
+    intro cs h
+    simp only [toEnc, Option.some.injEq] at h
+    subst h
+    exact consts_encodable C _
+  rw [bytecode_roundtrip_default_fuel C conv mods _ hE, normBC_of_WF _ (toEnc_WF fs cbc hs)]
+  apply fixObjects_id
+  intro cs h c hc
+  simp only [toEnc, Option.some.injEq] at h
+  subst h
+  obtain ⟨k, _, rfl⟩ := List.mem_map.mp hc
+  have := objOfConst_notModule k
+  rwa [norm_of_WF _ (objOfConst_WF k (fun f hf => hs.2 k (by assumption) f hf))] at this
+
+/-- every bytecode of the shape the compiler produces without imports — constants are scalars
+    and compiled functions without free variables, a main function — whether or not the optimizer
+    produced it -/
+def CompilerShaped (C : Ctx) (fs : Option FileSet) (bc : BC) : Prop :=
+  ∃ cbc : Compile.Bytecode, bc = toEnc fs cbc ∧ SmallCounts cbc ∧ (encodeBytecodeBody C bc).length < 2 ^ 63
+
+theorem C04_full_shaped (F : FloatOps) (H : Host) (C : Ctx) (conv : BC → Res BC) (mods : Mods) (fs : Option FileSet) :
+    C04_full C conv mods (CompilerShaped C fs) (run F H) := by
+  rintro bc ⟨cbc, rfl, hs, hsmall⟩
+  have hrt := compiled_roundtrip_exact C conv mods fs cbc hs hsmall
+  have hE : EncodableBC C (toEnc fs cbc) := by
+    refine ⟨?_, hsmall⟩
+    intro cs h
+    simp only [toEnc, Option.some.injEq] at h
+    subst h
+    exact consts_encodable C _
+  have hfx : fixObjects mods (normBC (toEnc fs cbc)) = .ok (toEnc fs cbc) := by
+    rw [← bytecode_roundtrip_default_fuel C conv mods _ hE]; exact hrt
+  refine ⟨toEnc fs cbc, ?_, fun _ => rfl, toEnc fs cbc, ?_, fun _ => rfl⟩
+  · intro fuel hf
+    rw [rt_bytecode C conv mods _ fuel hf hE, hfx]
+  · intro fuel hf
+    rw [rt_bytecode C conv mods _ fuel hf hE, hfx]
+
+/-- `C04_full` for compiler output of the modelled language: for every script the compile model
+    accepts, the compiled bytecode, encoded and decoded (and encoded and decoded once more), runs
+    to the same outcome and final state in the VM model, for all globals and arguments. -/
+theorem C04_full_compiled (F : FloatOps) (H : Host) (C : Ctx) (conv : BC → Res BC) (mods : Mods)
+    (builtins : List (String × Nat)) (disabled : List String) (fs : Option FileSet) :
+    C04_full C conv mods (CompilerOutput C builtins disabled fs) (run F H) := by
+  rintro bc ⟨file, cbc, _, hbc, hs, hsmall⟩
+  exact C04_full_shaped F H C conv mods fs bc ⟨cbc, hbc, hs, hsmall⟩
+
+/-! ### positions (C16): the decoded bytecode reports the same error positions -/
+
+/-- the decoded bytecode has the same file set, and every function whose source map is a Go map
+    (unique keys) has the same source map: as values of the position model -/
+theorem positions_equal (bc : BC) (f : CF) (hk : ∀ sm, f.sourceMap = some sm → (keys sm).Nodup) :
+    (normBC bc).fileSet.map fileSetOf = bc.fileSet.map fileSetOf ∧ sourceMapOf (normCF f) = sourceMapOf f := by
+  refine ⟨rfl, ?_⟩
+  unfold sourceMapOf normCF
+  cases h : f.sourceMap with
+  | none => rfl
+  | some sm => simp only [Option.map_some, Option.getD_some, mapOfList_of_nodup sm (hk sm h)]
+
+/-- `getSourcePos` / `getFrameSourcePos` / the trace built by `throw` / `StackTrace()` of the
+    position model (`Model/Trace.lean`, property C16) are the same over the decoded bytecode as
+    over the original: for every call stack (current function, ip, caller frames) whose
+    functions have Go-map source maps, and every file set. -/
+theorem trace_positions_equal (bc : BC) (noTrace : Bool) (cur : Option CF) (ip : Int) (callers : List PFrame)
+    (trace : List Model.Pos)
+    (hcur : ∀ f, cur = some f → ∀ sm, f.sourceMap = some sm → (keys sm).Nodup)
+    (hcallers : ∀ fr ∈ callers, ∀ f, fr.fn = some f → ∀ sm, f.sourceMap = some sm → (keys sm).Nodup) :
+    Model.throwTrace noTrace ((cur.map normCF).map sourceMapOf) ip ((callers.map decodedFrame).map tframeOf) trace =
+      Model.throwTrace noTrace (cur.map sourceMapOf) ip (callers.map tframeOf) trace ∧
+    ∀ tr, ((normBC bc).fileSet.map fun fs => Model.stackTrace (fileSetOf fs) tr) =
+      (bc.fileSet.map fun fs => Model.stackTrace (fileSetOf fs) tr) := by
+  refine ⟨?_, fun _ => rfl⟩
+  have h1 : (cur.map normCF).map sourceMapOf = cur.map sourceMapOf := by
+    cases cur with
+    | none => rfl
+    | some f => simp only [Option.map_some, (positions_equal {} f (hcur f rfl)).2]
+  have h2 : (callers.map decodedFrame).map tframeOf = callers.map tframeOf := by
+    rw [List.map_map]
+    apply List.map_congr_left
+    intro fr hfr
+    obtain ⟨fn, fip, hh⟩ := fr
+    cases fn with
+    | none => rfl
+    | some f =>
+      simp only [Function.comp, decodedFrame, tframeOf, Option.map_some,
+        (positions_equal {} f (hcallers _ hfr f rfl)).2]
+  rw [h1, h2]
+
+end vm
+
 /-! ### non-vacuity -/
 
 /-- a context in which gob rejects everything and `len` is a builtin -/
@@ -249,5 +426,35 @@ example : C04_full ctx0 (fun bc => .ok bc) (fun _ => none) (fun bc => bc = {}) (
     (by intro bc h; subst h; exact ⟨(by intro cs h; cases h), (by simp [encodeBytecodeBody])⟩)
     (by intro bc h; subst h
         exact ⟨{}, rfl, ⟨(by intro cs h; cases h), (by simp [encodeBytecodeBody])⟩, rfl, fun _ => rfl⟩)
+
+/-- the empty script compiles (compile model, evaluated by the kernel): `RETURN 0` -/
+def emptyMain : Compile.CFn :=
+  { numParams := 0, numLocals := 0, variadic := false, insts := #[39, 0], sourceMap := [(0, 0)] }
+theorem emptyProg : Compile.compileFile [] [] [] = .ok { main := emptyMain, constants := #[] } := rfl
+
+/-- `CompilerOutput` is inhabited: the bytecode of the empty script meets every side condition of
+    `C04_full_compiled` -/
+example : CompilerOutput ctx0 [] [] none (toEnc none { main := emptyMain, constants := #[] }) := by
+  have hsmall : (encodeBytecodeBody ctx0 (toEnc none { main := emptyMain, constants := #[] })).length < 2 ^ 63 := by
+    have h := encodeCF_length_le (cfOfCFn emptyMain) 2 1 (by intro i hi; simp [cfOfCFn, emptyMain] at hi; subst hi; simp)
+      (by intro sm hs; simp [cfOfCFn, emptyMain, mapOfList, mapSet] at hs; subst hs; simp) (by decide)
+    simp only [encodeBytecodeBody, toEnc, encodeObject]
+    simp
+    omega
+  exact ⟨[], _, emptyProg, rfl, ⟨⟨by decide, by decide⟩, by intro c hc; simp at hc⟩, hsmall⟩
+
+/-- the hypotheses of `C04_roundtrip_run` with a module constant are satisfiable (`FixOK_module`) -/
+example : FixOK (fun n => if n = [0x6d] then some [([0x66], .function [0x66])] else none)
+    (.map [([0x66], .function [0x66]), (attrModuleName, .str [0x6d])]) :=
+  FixOK_module _ [0x6d] [([0x66], .function [0x66])] _ (by simp) (by decide) rfl (by
+    intro k v h
+    simp only [List.mem_cons, Prod.mk.injEq, List.mem_nil_iff, or_false] at h
+    rcases h with ⟨rfl, rfl⟩ | ⟨rfl, rfl⟩
+    · right; exact ⟨by decide, rfl⟩
+    · left; exact ⟨rfl, rfl⟩)
+
+/-- a call stack meeting the hypotheses of `trace_positions_equal` -/
+example : ∀ sm, (cfOfCFn emptyMain).sourceMap = some sm → (keys sm).Nodup :=
+  (cfOfCFn_WF emptyMain ⟨by decide, by decide⟩).smKeys
 
 end UgoVerif.Props.C04
